@@ -52,7 +52,11 @@ func writeEvents(path string, evs []map[string]any) error {
 	w := bufio.NewWriterSize(f, 1<<20)
 	enc := json.NewEncoder(w)
 	enc.SetEscapeHTML(false)
-	for _, e := range evs {
+	for i, e := range evs {
+		// TLC integers are 32 bits wide and its JSON reader wraps silently: refuse to write what it would misread
+		if k := outOfTLCRange(e); k != "" {
+			return fmt.Errorf("event %d: integer outside TLC's 32-bit range at %q", i, k)
+		}
 		if err := enc.Encode(emptyMapsAsLists(e)); err != nil {
 			return err
 		}
@@ -61,6 +65,63 @@ func writeEvents(path string, evs []map[string]any) error {
 		return err
 	}
 	return f.Close()
+}
+
+func outOfTLCRange(v any) string {
+	bad := func(n int64) bool { return n > 2147483647 || n < -2147483648 }
+	switch x := v.(type) {
+	case int64:
+		if bad(x) {
+			return "."
+		}
+	case int:
+		if bad(int64(x)) {
+			return "."
+		}
+	case uint64:
+		if x > 2147483647 {
+			return "."
+		}
+	case float64, float32:
+		return ". (floating point)"
+	case map[string]any:
+		for k, y := range x {
+			if r := outOfTLCRange(y); r != "" {
+				return k + "/" + r
+			}
+		}
+	case []any:
+		for _, y := range x {
+			if r := outOfTLCRange(y); r != "" {
+				return r
+			}
+		}
+	default:
+		rv := reflect.ValueOf(v)
+		switch rv.Kind() {
+		case reflect.Slice, reflect.Array:
+			for i := 0; i < rv.Len(); i++ {
+				if r := outOfTLCRange(rv.Index(i).Interface()); r != "" {
+					return r
+				}
+			}
+		case reflect.Map:
+			for _, k := range rv.MapKeys() {
+				if r := outOfTLCRange(rv.MapIndex(k).Interface()); r != "" {
+					return fmt.Sprint(k) + "/" + r
+				}
+			}
+		case reflect.Int, reflect.Int8, reflect.Int16, reflect.Int32, reflect.Int64:
+			if bad(rv.Int()) {
+				return "."
+			}
+		case reflect.Uint, reflect.Uint8, reflect.Uint16, reflect.Uint32, reflect.Uint64:
+			if rv.Uint() > 2147483647 {
+				return "."
+			}
+		}
+	}
+	return ""
 }
 
 func readEvent(path string) (map[string]any, error) {
